@@ -15,8 +15,10 @@ import (
 
 // C20 — blobref text, encodings and ordering. The agreement of the
 // per-hash-family tables and of the sibling digest types, and the agreement of
-// the digit alphabet between formatters and parsers (B-hex) are decided here;
-// the value-level round trips are left to dynamic checks.
+// the digit alphabet between formatters and parsers (B-hex) are decided here,
+// and so is the ordering implemented by the ref comparators (B-less, by
+// path-complete symbolic execution); the value-level round trips are left to
+// dynamic checks.
 //
 // Everything is read from go/ssa of package pkg/blob: the package initializer
 // (the tables), the digest types' methods, and the few functions that consult
@@ -38,7 +40,8 @@ func init() {
 			"B-len — every call through digestMeta.ctors/ctorb is dominated by len(hex)=2·meta.size and every call through digestMeta.ctor by len(b)=meta.size of the same meta (or takes h.Sum of the hash whose (type,Size()) selected the meta). " +
 			"B-default — blob.NewHash returns the newHash constructor of a supported family. " +
 			"B-hex (writer/reader agreement of the digit alphabet) — writers: Ref.appendString (behind String, StringMinusOne, MarshalJSON) prints each nibble n of a digest byte as E[n] for one constant 16-character table E with distinct characters, read off the constant string indexed by a nibble of the byte (index expression evaluated for all 256 byte values) or off a frozen table of standard-library hex encoders; every other function of pkg/blob in which a nibble selects a character or that calls such an encoder (Ref.Digest, equalString/hasPrefix of all four digest types, the %x re-encoding in UnmarshalBinary) uses the same E. Readers: for the ctors and ctorb constructor of every metaFromString family, every use of the text parameter is followed (slices, conversions, package-local helpers) to the calls that consume its characters; a package-local digit function is evaluated over all 256 byte values by interpreting its go/ssa (pure integer/boolean code, constant strings, package-level constant arrays, stores to the bad flag or a (value, ok) result), a standard-library decoder is looked up in a frozen table; required: accepted characters = {E[0..15]} exactly and accepted c ↦ n with E[n] = c, and no success exit of the constructor (or helper) is reachable from a digit-judging call without crossing the branch on its verdict (bad flag read afterwards, ok result, helper result, decoder error). parseUnknown: the same, except that it may accept more than E (its refs are never of a supported family: B-known). Closure: a value of a family's digest type becomes a digestType only inside that family's ctor/ctors/ctorb functions or helpers only they call. blob.Pattern matches every printed digit at the first, a middle and the last digit position of a full ref of every family. " +
-			"NOT decided: that parse∘String, the JSON and the binary encodings round-trip as whole strings; that Less agrees with byte order of the text forms; that the decode loops and equalString/hasPrefix visit every digit position, in the order high nibble first (only the per-digit tables are compared, not the positions); the behaviour of otherDigest beyond its digit alphabet; that the standard-library constructors compute the named algorithm; whether blob.Pattern matches more than the parsers accept. These are value-level statements over all strings.",
+			"B-less (the ordering functions) — comparators: Ref.Less and every method of pkg/blob named Less that takes a ref-holding struct (Ref, SizedRef) or two indexes into a slice of them (ByRef, SizedByRef); each is executed symbolically on its go/ssa (package-local callees such as Valid, Sum32, Sum64 inlined; bytes.Compare/Equal, strings.Compare, cmp.Compare/Less, slices.Compare/Equal and encoding/binary's BigEndian/LittleEndian.UintNN by their documented meaning; String() as the text form itself), once per metaFromString family with that family's digest length, with concrete control flow and lengths and symbolic operands (validity, digestName(), the N digest bytes, integers tracked byte lane by byte lane so that the window and byte order of an integer comparison are derived from the shifts/ors that built it). All paths are enumerated by answering every comparison of symbolic data less/equal/greater. Required on every path for two valid refs: (1) #names — the digestName() strings (or the whole text forms) have been compared, and under different names the result is name(first) < name(second); digest bytes decide only under equal names; (2) #bytes[family] — under equal names, in every way of satisfying the path's comparison outcomes by per-byte relations, the lexicographic order of digest bytes [0,N) is determined and the result is true exactly when the first operand is smaller: so the compared windows cover every byte from 0 in order, later windows are consulted only on equality of the earlier ones, integer windows are big-endian and unsigned, both operands use the same windows, (3) and the result is false for equal refs. A byte that no comparison constrains while all earlier bytes are equal, a little-endian or signed window, windows that differ between the operands, an operand compared with itself, a result on equality, or reversed operands are violations; code the executor cannot follow (type switches on the digest, other fields, unknown callees) is Undecided. #digit-order — when a comparator decides by digest bytes, the digit table E of appendString (B-hex) is strictly increasing, so byte order carries over to hex digits. #name-order — for every pair of different metaFromString names A < B, A+separator < B+separator and neither is a prefix of the other, so the order of names is the order of the text forms of refs of different hash functions. Premise taken from B-family: T.bytes() is the whole array and T.digestName() the family's name. " +
+			"NOT decided: that parse∘String, the JSON and the binary encodings round-trip as whole strings; that appendString writes the digest bytes in index order with the high nibble first (B-less decides that Less is the order of (hash name, digest bytes) and that the digit table is increasing; that this is the byte order of the text forms additionally needs that layout); the order of refs of unknown hash names (otherDigest) and of invalid refs; comparators of refs outside pkg/blob and function literals passed to sort.Slice; that the decode loops and equalString/hasPrefix visit every digit position, in the order high nibble first (only the per-digit tables are compared, not the positions); the behaviour of otherDigest beyond its digit alphabet; that the standard-library constructors compute the named algorithm; whether blob.Pattern matches more than the parsers accept. These are value-level statements over all strings.",
 		RuleDocs: map[string]string{
 			"B-family":  "every MapUpdate of metaFromString in the package initializer: digestMeta fields vs digest type vs standard-library constants",
 			"B-type":    "every MapUpdate of metaFromType: key (reflect.TypeOf(F()), n) agrees with the target digestMeta; every family is reachable",
@@ -49,11 +52,12 @@ func init() {
 			"B-len":     "dynamic calls through digestMeta.ctor/ctors/ctorb are dominated by the matching length fact on the same meta",
 			"B-default": "NewHash's constructor belongs to a metaFromString family",
 			"B-hex":     "digit alphabet: every nibble→character table use and hex encoder call in pkg/blob prints with the table of appendString; the ctors/ctorb constructor of every family and parseUnknown read digits only through digit functions (go/ssa evaluated on all 256 bytes) or tabled decoders whose accepted set and values invert that table, and never report success past an untested bad-digit verdict; family digests are built only by the table's constructors; blob.Pattern matches every printed digit",
+			"B-less":    "every ref comparator of pkg/blob (Ref.Less; methods named Less on Ref/SizedRef and on slices of them): symbolic execution per family enumerates all paths; different hash names are ordered by digestName(), equal names by a lexicographic comparison that covers digest bytes [0,N) from 0 in order with the same big-endian/unsigned windows on both operands, false on equality; the digit table of the text form is increasing; name order = order of name+separator for all pairs of family names",
 		},
 		Run:       runC20,
 		DesignRef: "DESIGN.md §4 C20",
-		Technique: "static analysis: table agreement over the go/ssa package initializer (constants, types, function identities), constant agreement and dominating branch facts in the digest types' methods; writer/reader alphabet agreement by exhaustive abstract evaluation of the digit functions' go/ssa over the 256 byte values, data-flow of the text argument through package-local helpers, and path search from every digit-judging call to the success exits",
-		LevelText: "Decides that the per-hash-family tables of pkg/blob agree with each other, with the digest types' methods and with the standard-library hash constants, that the functions consulting them are guarded by the matching length/lookup facts, and that the set of characters (and their values) the digest parsers of supported families accept is exactly the set the formatters print, so that no string with a character outside the printed alphabet can parse as a supported ref. It does not decide the remaining value-level statements of the property (round trips of whole text/JSON/binary forms, Less vs text order, that every digit position is visited in the right order); those need dynamic checking.",
+		Technique: "static analysis: table agreement over the go/ssa package initializer (constants, types, function identities), constant agreement and dominating branch facts in the digest types' methods; writer/reader alphabet agreement by exhaustive abstract evaluation of the digit functions' go/ssa over the 256 byte values, data-flow of the text argument through package-local helpers, and path search from every digit-judging call to the success exits; ordering functions by path-complete symbolic execution of their go/ssa per digest length (concrete control flow, symbolic digest bytes tracked per byte lane, oracle-driven enumeration of comparison outcomes) and an exact per-path decision over per-byte relations",
+		LevelText: "Decides that the per-hash-family tables of pkg/blob agree with each other, with the digest types' methods and with the standard-library hash constants, that the functions consulting them are guarded by the matching length/lookup facts, and that the set of characters (and their values) the digest parsers of supported families accept is exactly the set the formatters print, so that no string with a character outside the printed alphabet can parse as a supported ref. It also decides, for refs of the supported families, that Ref.Less, SizedRef.Less, ByRef.Less and SizedByRef.Less order by hash name first and then by a lexicographic comparison covering every digest byte in order (big-endian, unsigned, same windows on both operands, irreflexive), and that the hex digit table is increasing — which is the byte order of the text forms provided appendString lays the digits out in byte order, high nibble first (not decided). It does not decide the remaining value-level statements of the property (round trips of whole text/JSON/binary forms, the digit layout/positions, that every digit position is visited in the right order by parsers and equalString/hasPrefix); those need dynamic checking.",
 	})
 }
 
@@ -100,6 +104,9 @@ type c20Model struct {
 	textMemo   map[c20TextKey]*c20TextSum
 	cgCallers  map[*ssa.Function]map[*ssa.Function]bool
 	cgValueUse map[*ssa.Function]bool
+	// B-less: the digit table of appendString, as extracted by B-hex
+	hexE   [16]byte
+	hexEOK bool
 }
 
 func (m *c20Fam) key() string { return c20Pkg + ".metaFromString[" + m.name + "]" }
@@ -117,6 +124,7 @@ func runC20(p *Program, r *Reporter) {
 	c20RuleLen(m)
 	c20RuleDefault(m)
 	c20RuleHex(m)
+	c20RuleLess(m)
 }
 
 // ---------------------------------------------------------------------------
@@ -3382,6 +3390,7 @@ func c20RuleHex(m *c20Model) {
 		inE[c] = n
 	}
 	isE := func(c int) bool { _, ok := inE[byte(c)]; return ok }
+	m.hexE, m.hexEOK = E, true
 	r.OKTable(rule, asKey, p.Pos(as.Pos()), fmt.Sprintf("the text form prints nibble n of every digest byte as %q[n], high nibble first (%s)", string(E[:]), sites[0].what))
 
 	// (2) every other writer / digit-by-digit comparer in the package uses the same table
@@ -3722,4 +3731,1543 @@ func c20OnlyPrinted(mi *ssa.MakeInterface) bool {
 		return true
 	}
 	return sinkCall(mi, 0)
+}
+
+// ---------------------------------------------------------------------------
+// B-less — the ordering functions
+//
+// Every comparator of pkg/blob that orders refs (Ref.Less, and the methods
+// named Less whose operands are a ref-holding struct or two elements of a
+// slice of such structs) is executed symbolically on its go/ssa, once per
+// supported family with the digest length N of that family. Control flow,
+// lengths, indexes and loop counters are concrete; the only symbolic data are
+// the two operands: their validity, their hash names, their N digest bytes,
+// integers assembled from digest bytes (tracked byte lane by byte lane) and
+// their whole text forms. Every comparison of symbolic data is a *question*
+// with two or three outcomes (less/equal/greater); the executor answers it from
+// an oracle and is re-run for every combination of answers, which yields all
+// paths, each with the list of questions it asked, their outcomes and the
+// concrete boolean it returns. A path is then judged exactly: the outcomes are
+// translated into per-byte relations r[i] ? o[i], all ways of satisfying them
+// are enumerated, and in each the lexicographic order of the two digests must
+// be determined and equal to what the path returns. A digest byte that no
+// question constrains while all earlier bytes are equal is a counter-example
+// (two refs differing there get the same answer both ways round).
+
+type c20LLane struct {
+	sym  bool
+	side int8
+	idx  int64
+	c    byte
+}
+
+type c20LCell struct{ v c20LVal }
+
+type c20LVal struct {
+	k      byte // 'c' concrete, 'n' nil, 'S' operand struct, 'D' digest, 'N' hash name, 'B' digest byte window, 'W' integer of byte lanes, 'T' text form, 'P' pointer, 'E' sorted slice, 'I' element index, 'U' tuple, 'G' opaque, '0' unset
+	c      c20V
+	side   int8
+	typ    *types.Named
+	lo, hi int64
+	str    bool
+	lanes  []c20LLane // most significant first
+	signed bool
+	cell   *c20LCell
+	path   []int
+	tup    []c20LVal
+	what   string
+}
+
+type c20LKey struct {
+	kind  byte // 'v' valid(side), 'n' hash names, 't' text forms, 's' byte sequence
+	side  int8
+	pairs [][2]int64 // (index in first operand, index in second operand), in the order compared
+	tail  int        // outcome when all pairs are equal (lengths differ), 0 = equal
+}
+
+func (k c20LKey) id() string {
+	switch k.kind {
+	case 'v':
+		return fmt.Sprintf("v%d", k.side)
+	case 'n', 't':
+		return string(k.kind)
+	}
+	var sb strings.Builder
+	sb.WriteString("s")
+	for _, p := range k.pairs {
+		fmt.Fprintf(&sb, " %d:%d", p[0], p[1])
+	}
+	fmt.Fprintf(&sb, " /%d", k.tail)
+	return sb.String()
+}
+
+func (k c20LKey) outcomes() []int {
+	switch k.kind {
+	case 'v':
+		return []int{1, 0}
+	case 's':
+		if k.tail != 0 {
+			if len(k.pairs) == 0 {
+				return []int{k.tail}
+			}
+			return []int{-1, 1}
+		}
+	}
+	return []int{0, -1, 1}
+}
+
+func (k c20LKey) String() string {
+	switch k.kind {
+	case 'v':
+		return fmt.Sprintf("validity of operand %d", k.side+1)
+	case 'n':
+		return "hash names"
+	case 't':
+		return "whole text forms"
+	}
+	ident, asc := true, true
+	for i, p := range k.pairs {
+		if p[0] != p[1] {
+			ident = false
+		}
+		if i > 0 && p[0] != k.pairs[i-1][0]+1 {
+			asc = false
+		}
+	}
+	s := ""
+	switch {
+	case len(k.pairs) == 0:
+		s = "no digest bytes"
+	case ident && asc:
+		s = fmt.Sprintf("digest bytes [%d,%d)", k.pairs[0][0], k.pairs[len(k.pairs)-1][0]+1)
+	case ident:
+		var xs []string
+		for i, p := range k.pairs {
+			if i == 8 {
+				xs = append(xs, "…")
+				break
+			}
+			xs = append(xs, fmt.Sprint(p[0]))
+		}
+		s = "digest bytes " + strings.Join(xs, ",") + " in this order"
+	default:
+		var xs []string
+		for i, p := range k.pairs {
+			if i == 6 {
+				xs = append(xs, "…")
+				break
+			}
+			xs = append(xs, fmt.Sprintf("r[%d]:o[%d]", p[0], p[1]))
+		}
+		s = "digest bytes " + strings.Join(xs, ",")
+	}
+	if k.tail != 0 {
+		s += " (windows of different length)"
+	}
+	return s
+}
+
+type c20LFact struct {
+	key c20LKey
+	out int
+}
+
+func c20LOutName(k c20LKey, out int) string {
+	if k.kind == 'v' {
+		if out == 1 {
+			return "valid"
+		}
+		return "invalid"
+	}
+	switch {
+	case out < 0:
+		return "less"
+	case out > 0:
+		return "greater"
+	}
+	return "equal"
+}
+
+// identRange: the key compares bytes [lo,hi) of both operands in ascending order.
+func (k c20LKey) identRange() (lo, hi int64, ok bool) {
+	if k.kind != 's' || len(k.pairs) == 0 || k.tail != 0 {
+		return 0, 0, false
+	}
+	for i, p := range k.pairs {
+		if p[0] != p[1] || (i > 0 && p[0] != k.pairs[i-1][0]+1) {
+			return 0, 0, false
+		}
+	}
+	return k.pairs[0][0], k.pairs[len(k.pairs)-1][0] + 1, true
+}
+
+func c20LPathDesc(facts []c20LFact) string {
+	var xs []string
+	for i := 0; i < len(facts); i++ {
+		f := facts[i]
+		if f.key.kind == 'v' {
+			continue
+		}
+		// a byte-by-byte loop: merge adjacent windows found equal
+		if lo, hi, ok := f.key.identRange(); ok && f.out == 0 {
+			n := 1
+			for i+1 < len(facts) && facts[i+1].out == 0 {
+				lo2, hi2, ok2 := facts[i+1].key.identRange()
+				if !ok2 || lo2 != hi {
+					break
+				}
+				hi = hi2
+				i++
+				n++
+			}
+			if n > 1 {
+				xs = append(xs, fmt.Sprintf("digest bytes [%d,%d) equal (in %d steps)", lo, hi, n))
+				continue
+			}
+		}
+		xs = append(xs, f.key.String()+" "+c20LOutName(f.key, f.out))
+	}
+	if len(xs) == 0 {
+		return "(nothing compared)"
+	}
+	return strings.Join(xs, " → ")
+}
+
+type c20LRun struct {
+	facts  []c20LFact
+	res    bool
+	panics string
+}
+
+type c20LExec struct {
+	m       *c20Model
+	N       int64
+	refT    *types.Named
+	digestT *types.Named
+	strFn   *ssa.Function
+	prefix  []int
+	answers []int
+	facts   []c20LFact
+	memo    map[string]int
+	work    *[][]int
+	steps   int
+}
+
+func (x *c20LExec) ask(k c20LKey) int {
+	id := k.id()
+	if o, ok := x.memo[id]; ok {
+		return o
+	}
+	feas := k.outcomes()
+	qi := len(x.answers)
+	var o int
+	if qi < len(x.prefix) {
+		o = x.prefix[qi]
+	} else {
+		o = feas[0]
+		for _, alt := range feas[1:] {
+			p := append(append([]int{}, x.answers...), alt)
+			*x.work = append(*x.work, p)
+		}
+	}
+	x.answers = append(x.answers, o)
+	x.memo[id] = o
+	x.facts = append(x.facts, c20LFact{k, o})
+	return o
+}
+
+// holder: a struct type of pkg/blob that is the Ref or directly contains one.
+func (x *c20LExec) holder(t types.Type) *types.Named {
+	n, _ := t.(*types.Named)
+	if n == nil {
+		return nil
+	}
+	if n == x.refT {
+		return n
+	}
+	st, ok := n.Underlying().(*types.Struct)
+	if !ok || n.Obj().Pkg() == nil || n.Obj().Pkg() != x.refT.Obj().Pkg() {
+		return nil
+	}
+	for i := 0; i < st.NumFields(); i++ {
+		if st.Field(i).Type() == types.Type(x.refT) {
+			return n
+		}
+	}
+	return nil
+}
+
+func (x *c20LExec) field(v c20LVal, i int) (c20LVal, error) {
+	if v.k != 'S' || v.typ == nil {
+		return c20LVal{}, fmt.Errorf("field selection on something other than an operand")
+	}
+	st := v.typ.Underlying().(*types.Struct)
+	if i >= st.NumFields() {
+		return c20LVal{}, fmt.Errorf("field index out of range")
+	}
+	ft := st.Field(i).Type()
+	if v.typ == x.refT && ft == types.Type(x.digestT) {
+		return c20LVal{k: 'D', side: v.side}, nil
+	}
+	if ft == types.Type(x.refT) {
+		return c20LVal{k: 'S', side: v.side, typ: x.refT}, nil
+	}
+	return c20LVal{}, fmt.Errorf("reads field %s.%s of an operand, which is not part of the ref", v.typ.Obj().Name(), st.Field(i).Name())
+}
+
+func (x *c20LExec) load(p c20LVal) (c20LVal, error) {
+	if p.k != 'P' || p.cell == nil {
+		return c20LVal{}, fmt.Errorf("load through something other than a modelled pointer")
+	}
+	v := p.cell.v
+	for _, f := range p.path {
+		var err error
+		if v, err = x.field(v, f); err != nil {
+			return v, err
+		}
+	}
+	if v.k == '0' {
+		return v, fmt.Errorf("read of a variable before the analysis saw a value stored to it")
+	}
+	return v, nil
+}
+
+func c20LConstWord(n int64, bits int) []c20LLane {
+	out := make([]c20LLane, bits/8)
+	for i := range out {
+		sh := uint(bits/8-1-i) * 8
+		out[i] = c20LLane{c: byte(uint64(n) >> sh)}
+	}
+	return out
+}
+
+// asWord: v as byte lanes of an integer type t.
+func c20LAsWord(v c20LVal, t types.Type) ([]c20LLane, bool, error) {
+	bits, signed, ok := c20IntKind(t)
+	if !ok {
+		return nil, false, fmt.Errorf("integer operation on type %s", t)
+	}
+	switch v.k {
+	case 'W':
+		if len(v.lanes) != bits/8 {
+			return nil, false, fmt.Errorf("integer of %d bytes used at type %s", len(v.lanes), t)
+		}
+		return v.lanes, signed, nil
+	case 'c':
+		if v.c.k == 'i' {
+			return c20LConstWord(v.c.i, bits), signed, nil
+		}
+	}
+	return nil, false, fmt.Errorf("integer operation on a value the analysis does not model")
+}
+
+func c20LAllConst(ls []c20LLane) (int64, bool) {
+	if len(ls) > 8 {
+		return 0, false
+	}
+	var n uint64
+	for _, l := range ls {
+		if l.sym {
+			return 0, false
+		}
+		n = n<<8 | uint64(l.c)
+	}
+	if len(ls) == 8 && n>>63 != 0 {
+		return 0, false
+	}
+	return int64(n), true
+}
+
+func c20LMkWord(ls []c20LLane, t types.Type) (c20LVal, error) {
+	_, signed, _ := c20IntKind(t)
+	if n, ok := c20LAllConst(ls); ok {
+		w, err := c20Wrap(n, t)
+		return c20LVal{k: 'c', c: c20V{k: 'i', i: w}}, err
+	}
+	return c20LVal{k: 'W', lanes: ls, signed: signed}, nil
+}
+
+// seqKey builds the question "compare these lanes pairwise in order".
+// flip: the operands were (second, first) and the outcome must be mirrored.
+func c20LSeqKey(a, b []c20LLane, tail int) (k c20LKey, flip bool, err error) {
+	n := len(a)
+	if len(b) < n {
+		n = len(b)
+	}
+	dir := 0
+	k = c20LKey{kind: 's', tail: tail}
+	for i := 0; i < n; i++ {
+		la, lb := a[i], b[i]
+		switch {
+		case !la.sym && !lb.sym:
+			if la.c != lb.c {
+				return k, false, fmt.Errorf("a comparison whose operands contain different constants")
+			}
+			continue
+		case la.sym != lb.sym:
+			return k, false, fmt.Errorf("a digest byte is compared with a constant")
+		case la.side == lb.side:
+			if la.idx == lb.idx {
+				continue // a byte compared with itself: always equal
+			}
+			return k, false, fmt.Errorf("two bytes of the same ref are compared with each other")
+		}
+		d := 1
+		if la.side == 1 {
+			d = -1
+		}
+		if dir != 0 && d != dir {
+			return k, false, fmt.Errorf("one comparison mixes the operands in both directions")
+		}
+		dir = d
+		if d == 1 {
+			k.pairs = append(k.pairs, [2]int64{la.idx, lb.idx})
+		} else {
+			k.pairs = append(k.pairs, [2]int64{lb.idx, la.idx})
+		}
+	}
+	if dir == -1 {
+		k.tail = -k.tail
+		flip = true
+	}
+	return k, flip, nil
+}
+
+func c20LBytesLanes(v c20LVal) []c20LLane {
+	out := make([]c20LLane, 0, v.hi-v.lo)
+	for i := v.lo; i < v.hi; i++ {
+		out = append(out, c20LLane{sym: true, side: v.side, idx: i})
+	}
+	return out
+}
+
+// threeWay answers sign(a ? b) for two symbolic values of the same kind.
+// ordered: the caller needs the order, not only equality.
+func (x *c20LExec) threeWay(a, b c20LVal, t types.Type, ordered bool) (int, error) {
+	switch {
+	case a.k == 'N' && b.k == 'N', a.k == 'T' && b.k == 'T':
+		if a.side == b.side {
+			return 0, nil
+		}
+		kind := byte('n')
+		if a.k == 'T' {
+			kind = 't'
+		}
+		o := x.ask(c20LKey{kind: kind})
+		if a.side == 1 {
+			o = -o
+		}
+		return o, nil
+	case a.k == 'B' && b.k == 'B':
+		la, lb := c20LBytesLanes(a), c20LBytesLanes(b)
+		tail := 0
+		if len(la) < len(lb) {
+			tail = -1
+		} else if len(la) > len(lb) {
+			tail = 1
+		}
+		k, flip, err := c20LSeqKey(la, lb, tail)
+		if err != nil {
+			return 0, err
+		}
+		if len(k.pairs) == 0 {
+			if flip {
+				return -k.tail, nil
+			}
+			return k.tail, nil
+		}
+		o := x.ask(k)
+		if flip {
+			o = -o
+		}
+		return o, nil
+	case a.k == 'W' || b.k == 'W':
+		la, sa, err := c20LAsWord(a, t)
+		if err != nil {
+			return 0, err
+		}
+		lb, _, err := c20LAsWord(b, t)
+		if err != nil {
+			return 0, err
+		}
+		if ordered && sa && (la[0].sym || lb[0].sym) {
+			return 0, fmt.Errorf("a window of digest bytes is compared as a SIGNED integer (%s): signed order is not byte order", t)
+		}
+		k, flip, err := c20LSeqKey(la, lb, 0)
+		if err != nil {
+			return 0, err
+		}
+		if len(k.pairs) == 0 {
+			return 0, nil
+		}
+		o := x.ask(k)
+		if flip {
+			o = -o
+		}
+		return o, nil
+	}
+	return 0, fmt.Errorf("comparison of values the analysis does not model (%c with %c)", a.k, b.k)
+}
+
+func c20LCmpBool(op token.Token, o int) (bool, bool) {
+	switch op {
+	case token.EQL:
+		return o == 0, true
+	case token.NEQ:
+		return o != 0, true
+	case token.LSS:
+		return o < 0, true
+	case token.LEQ:
+		return o <= 0, true
+	case token.GTR:
+		return o > 0, true
+	case token.GEQ:
+		return o >= 0, true
+	}
+	return false, false
+}
+
+func c20LBool(b bool) c20LVal { return c20LVal{k: 'c', c: c20V{k: 'b', b: b}} }
+func c20LInt(n int64) c20LVal { return c20LVal{k: 'c', c: c20V{k: 'i', i: n}} }
+
+// equalRefs: r == o on digests / Ref structs (same type and same bytes).
+func (x *c20LExec) equalRefs(a, b c20LVal) (bool, error) {
+	if a.side == b.side {
+		return true, nil
+	}
+	if x.ask(c20LKey{kind: 'n'}) != 0 {
+		return false, nil
+	}
+	o, err := x.threeWay(c20LVal{k: 'B', side: 0, lo: 0, hi: x.N}, c20LVal{k: 'B', side: 1, lo: 0, hi: x.N}, nil, false)
+	return o == 0, err
+}
+
+func (x *c20LExec) binop(op token.Token, a, b c20LVal, opT, resT types.Type) (c20LVal, error) {
+	if a.k == 'c' && b.k == 'c' {
+		r, err := c20BinOp(op, a.c, b.c, resT)
+		return c20LVal{k: 'c', c: r}, err
+	}
+	if _, isCmp := c20LCmpBool(op, 0); isCmp {
+		switch {
+		case a.k == 'D' && b.k == 'n', a.k == 'n' && b.k == 'D':
+			side := a.side
+			if a.k == 'n' {
+				side = b.side
+			}
+			valid := x.ask(c20LKey{kind: 'v', side: side}) == 1
+			switch op {
+			case token.EQL:
+				return c20LBool(!valid), nil
+			case token.NEQ:
+				return c20LBool(valid), nil
+			}
+			return c20LVal{}, fmt.Errorf("ordering comparison with nil")
+		case a.k == 'D' && b.k == 'D', a.k == 'S' && b.k == 'S' && a.typ == x.refT && b.typ == x.refT:
+			if op != token.EQL && op != token.NEQ {
+				return c20LVal{}, fmt.Errorf("ordering comparison of interface values")
+			}
+			eq, err := x.equalRefs(a, b)
+			return c20LBool(eq == (op == token.EQL)), err
+		}
+		o, err := x.threeWay(a, b, opT, op != token.EQL && op != token.NEQ)
+		if err != nil {
+			return c20LVal{}, err
+		}
+		r, _ := c20LCmpBool(op, o)
+		return c20LBool(r), nil
+	}
+	if a.k != 'W' && b.k != 'W' {
+		return c20LVal{}, fmt.Errorf("operator %s on values the analysis does not model (%c, %c)", op, a.k, b.k)
+	}
+	// integer arithmetic on byte lanes
+	switch op {
+	case token.SHL, token.SHR:
+		if b.k != 'c' || b.c.k != 'i' {
+			return c20LVal{}, fmt.Errorf("shift by a non-constant amount")
+		}
+		la, signed, err := c20LAsWord(a, resT)
+		if err != nil {
+			return c20LVal{}, err
+		}
+		if b.c.i < 0 || b.c.i%8 != 0 {
+			return c20LVal{}, fmt.Errorf("digest bytes shifted by %d bits (not a whole number of bytes)", b.c.i)
+		}
+		if op == token.SHR && signed && la[0].sym {
+			return c20LVal{}, fmt.Errorf("arithmetic right shift of a signed window of digest bytes")
+		}
+		n, w := int(b.c.i/8), len(la)
+		out := make([]c20LLane, w)
+		for i := range out {
+			src := i + n
+			if op == token.SHR {
+				src = i - n
+			}
+			if src >= 0 && src < w {
+				out[i] = la[src]
+			}
+		}
+		return c20LMkWord(out, resT)
+	case token.OR, token.XOR, token.ADD, token.AND:
+		la, _, err := c20LAsWord(a, resT)
+		if err != nil {
+			return c20LVal{}, err
+		}
+		lb, _, err := c20LAsWord(b, resT)
+		if err != nil {
+			return c20LVal{}, err
+		}
+		out := make([]c20LLane, len(la))
+		for i := range out {
+			p, q := la[i], lb[i]
+			if p.sym {
+				p, q = q, p
+			}
+			switch {
+			case !p.sym && !q.sym:
+				switch op {
+				case token.OR:
+					out[i] = c20LLane{c: p.c | q.c}
+				case token.XOR:
+					out[i] = c20LLane{c: p.c ^ q.c}
+				case token.AND:
+					out[i] = c20LLane{c: p.c & q.c}
+				default:
+					if p.c != 0 && q.c != 0 {
+						return c20LVal{}, fmt.Errorf("addition of constants inside a window of digest bytes")
+					}
+					out[i] = c20LLane{c: p.c | q.c}
+				}
+			case !p.sym && q.sym:
+				switch {
+				case op == token.AND && p.c == 0:
+					out[i] = c20LLane{}
+				case op == token.AND && p.c == 0xff:
+					out[i] = q
+				case op != token.AND && p.c == 0:
+					out[i] = q
+				default:
+					return c20LVal{}, fmt.Errorf("a digest byte is combined (%s) with the constant %#x: no longer a whole byte", op, p.c)
+				}
+			default:
+				return c20LVal{}, fmt.Errorf("two digest bytes are combined (%s) into one byte of an integer", op)
+			}
+		}
+		return c20LMkWord(out, resT)
+	}
+	return c20LVal{}, fmt.Errorf("operator %s on a window of digest bytes", op)
+}
+
+func (x *c20LExec) convert(a c20LVal, from, to types.Type) (c20LVal, error) {
+	switch a.k {
+	case 'c':
+		if a.c.k == 'i' {
+			if _, _, ok := c20IntKind(to); ok {
+				n, err := c20Wrap(a.c.i, to)
+				return c20LInt(n), err
+			}
+		}
+		if a.c.k == 's' && c20IsByteString(to) {
+			if b, ok := to.Underlying().(*types.Basic); ok && b.Info()&types.IsString != 0 {
+				return a, nil
+			}
+		}
+	case 'B', 'T':
+		if c20IsByteString(to) {
+			_, isStr := to.Underlying().(*types.Basic)
+			a.str = isStr
+			return a, nil
+		}
+	case 'N':
+		if b, ok := to.Underlying().(*types.Basic); ok && b.Info()&types.IsString != 0 {
+			return a, nil
+		}
+	case 'W':
+		bits, _, ok := c20IntKind(to)
+		_, fromSigned, ok2 := c20IntKind(from)
+		if !ok || !ok2 {
+			break
+		}
+		w := bits / 8
+		out := make([]c20LLane, w)
+		n := len(a.lanes)
+		if w > n && fromSigned && a.lanes[0].sym {
+			return c20LVal{}, fmt.Errorf("sign extension of a window of digest bytes")
+		}
+		for i := 0; i < w; i++ {
+			src := n - w + i
+			if src >= 0 {
+				out[i] = a.lanes[src]
+			}
+		}
+		return c20LMkWord(out, to)
+	}
+	return c20LVal{}, fmt.Errorf("conversion from %s to %s of a value the analysis does not model", from, to)
+}
+
+// c20LStdCmp: standard-library comparison functions (documented behaviour).
+var c20LStdCmp = map[string]string{
+	"bytes.Compare":     "cmp",  // lexicographic three-way comparison of byte slices
+	"bytes.Equal":       "eq",   // same length and same bytes
+	"strings.Compare":   "cmp",  // lexicographic three-way comparison of strings
+	"cmp.Compare":       "cmp",  // three-way comparison of ordered values (strings: lexicographic; unsigned integers: numeric)
+	"cmp.Less":          "less", // x < y
+	"slices.Compare":    "cmp",  // element-wise three-way comparison, shorter is less
+	"slices.Equal":      "eq",   // same length and same elements
+	"strings.EqualFold": "",     // not an order
+}
+
+// c20LStdWord: standard-library functions that read an integer from bytes.
+// value = number of bytes, sign = byte order (+ big endian, - little endian).
+var c20LStdWord = map[string]int{
+	"(encoding/binary.bigEndian).Uint16":    2,
+	"(encoding/binary.bigEndian).Uint32":    4,
+	"(encoding/binary.bigEndian).Uint64":    8,
+	"(encoding/binary.littleEndian).Uint16": -2,
+	"(encoding/binary.littleEndian).Uint32": -4,
+	"(encoding/binary.littleEndian).Uint64": -8,
+}
+
+func (x *c20LExec) call(fn *ssa.Function, args []c20LVal, depth int) ([]c20LVal, error) {
+	if fn == nil || fn.Blocks == nil {
+		return nil, fmt.Errorf("no body to interpret")
+	}
+	if depth > 8 {
+		return nil, fmt.Errorf("call depth exceeded in %s", FuncKeyAny(fn))
+	}
+	if len(args) != len(fn.Params) {
+		return nil, fmt.Errorf("arity mismatch calling %s", FuncKeyAny(fn))
+	}
+	who := FuncKeyAny(fn)
+	env := map[ssa.Value]c20LVal{}
+	tuples := map[ssa.Value][]c20LVal{}
+	for i, p := range fn.Params {
+		env[p] = args[i]
+	}
+	get := func(v ssa.Value) (c20LVal, error) {
+		switch t := v.(type) {
+		case *ssa.Const:
+			if t.Value == nil {
+				switch t.Type().Underlying().(type) {
+				case *types.Interface, *types.Pointer, *types.Slice, *types.Map, *types.Signature, *types.Chan:
+					return c20LVal{k: 'n'}, nil
+				}
+				return c20LVal{k: 'G', what: "zero value of " + t.Type().String()}, nil
+			}
+			cv, err := c20ConstVal(t)
+			if err != nil {
+				return c20LVal{k: 'G', what: "constant " + t.String()}, nil
+			}
+			if cv.k == 'i' {
+				if _, _, ok := c20IntKind(t.Type()); ok {
+					if cv.i, err = c20Wrap(cv.i, t.Type()); err != nil {
+						return c20LVal{}, err
+					}
+				}
+			}
+			return c20LVal{k: 'c', c: cv}, nil
+		case *ssa.Global:
+			return c20LVal{k: 'G', what: "address of " + t.Name()}, nil
+		case *ssa.Function:
+			return c20LVal{k: 'G', what: "function " + t.Name()}, nil
+		}
+		if r, ok := env[v]; ok {
+			return r, nil
+		}
+		return c20LVal{}, fmt.Errorf("%s: value %s (%T) is outside the interpretable fragment", who, v.Name(), v)
+	}
+	var prev *ssa.BasicBlock
+	b := fn.Blocks[0]
+	for {
+		var next *ssa.BasicBlock
+		phiVals := map[ssa.Value]c20LVal{}
+		for _, in := range b.Instrs {
+			ph, ok := in.(*ssa.Phi)
+			if !ok {
+				break
+			}
+			idx := -1
+			for i, p := range b.Preds {
+				if p == prev {
+					idx = i
+				}
+			}
+			if idx < 0 {
+				return nil, fmt.Errorf("phi without predecessor")
+			}
+			v, err := get(ph.Edges[idx])
+			if err != nil {
+				return nil, err
+			}
+			phiVals[ph] = v
+		}
+		for k, v := range phiVals {
+			env[k] = v
+		}
+		for _, in := range b.Instrs {
+			x.steps++
+			if x.steps > 200000 {
+				return nil, fmt.Errorf("step limit exceeded in %s", who)
+			}
+			switch t := in.(type) {
+			case *ssa.Phi, *ssa.DebugRef:
+			case *ssa.Alloc:
+				cell := &c20LCell{v: c20LVal{k: '0'}}
+				et := t.Type().Underlying().(*types.Pointer).Elem()
+				if _, _, ok := c20IntKind(et); ok {
+					cell.v = c20LInt(0)
+				} else if bt, ok := et.Underlying().(*types.Basic); ok && bt.Kind() == types.Bool {
+					cell.v = c20LBool(false)
+				}
+				env[t] = c20LVal{k: 'P', cell: cell}
+			case *ssa.Store:
+				a, err := get(t.Addr)
+				if err != nil {
+					return nil, err
+				}
+				v, err := get(t.Val)
+				if err != nil {
+					return nil, err
+				}
+				if a.k != 'P' || a.cell == nil || len(a.path) > 0 {
+					return nil, fmt.Errorf("%s: store to something other than a local variable", who)
+				}
+				a.cell.v = v
+			case *ssa.UnOp:
+				a, err := get(t.X)
+				if err != nil {
+					return nil, err
+				}
+				switch {
+				case t.Op == token.MUL && a.k == 'P':
+					v, err := x.load(a)
+					if err != nil {
+						return nil, fmt.Errorf("%s: %v", who, err)
+					}
+					env[t] = v
+				case t.Op == token.MUL && a.k == 'G':
+					env[t] = c20LVal{k: 'G', what: "value at " + a.what}
+				case t.Op == token.NOT && a.k == 'c' && a.c.k == 'b':
+					env[t] = c20LBool(!a.c.b)
+				case t.Op == token.SUB && a.k == 'c' && a.c.k == 'i':
+					n, err := c20Wrap(-a.c.i, t.Type())
+					if err != nil {
+						return nil, err
+					}
+					env[t] = c20LInt(n)
+				case t.Op == token.XOR && a.k == 'c' && a.c.k == 'i':
+					n, err := c20Wrap(^a.c.i, t.Type())
+					if err != nil {
+						return nil, err
+					}
+					env[t] = c20LInt(n)
+				default:
+					return nil, fmt.Errorf("%s: unary %s on a value the analysis does not model (%c)", who, t.Op, a.k)
+				}
+			case *ssa.BinOp:
+				a, err := get(t.X)
+				if err != nil {
+					return nil, err
+				}
+				c, err := get(t.Y)
+				if err != nil {
+					return nil, err
+				}
+				r, err := x.binop(t.Op, a, c, t.X.Type(), t.Type())
+				if err != nil {
+					if _, isP := err.(*c20Panic); isP {
+						return nil, err
+					}
+					return nil, fmt.Errorf("%s: %v", who, err)
+				}
+				env[t] = r
+			case *ssa.Convert:
+				a, err := get(t.X)
+				if err != nil {
+					return nil, err
+				}
+				r, err := x.convert(a, t.X.Type(), t.Type())
+				if err != nil {
+					return nil, fmt.Errorf("%s: %v", who, err)
+				}
+				env[t] = r
+			case *ssa.ChangeType:
+				a, err := get(t.X)
+				if err != nil {
+					return nil, err
+				}
+				env[t] = a
+			case *ssa.FieldAddr:
+				a, err := get(t.X)
+				if err != nil {
+					return nil, err
+				}
+				if a.k != 'P' {
+					return nil, fmt.Errorf("%s: field address of something other than a local variable", who)
+				}
+				np := append(append([]int{}, a.path...), t.Field)
+				env[t] = c20LVal{k: 'P', cell: a.cell, path: np}
+			case *ssa.Field:
+				a, err := get(t.X)
+				if err != nil {
+					return nil, err
+				}
+				v, err := x.field(a, t.Field)
+				if err != nil {
+					return nil, fmt.Errorf("%s: %v", who, err)
+				}
+				env[t] = v
+			case *ssa.IndexAddr:
+				a, err := get(t.X)
+				if err != nil {
+					return nil, err
+				}
+				i, err := get(t.Index)
+				if err != nil {
+					return nil, err
+				}
+				switch {
+				case a.k == 'E' && i.k == 'I':
+					sl, _ := t.X.Type().Underlying().(*types.Slice)
+					var h *types.Named
+					if sl != nil {
+						h = x.holder(sl.Elem())
+					}
+					if h == nil {
+						return nil, fmt.Errorf("%s: indexes a slice whose elements are not refs", who)
+					}
+					env[t] = c20LVal{k: 'P', cell: &c20LCell{v: c20LVal{k: 'S', side: i.side, typ: h}}}
+				case a.k == 'B' && !a.str && i.k == 'c' && i.c.k == 'i':
+					if i.c.i < 0 || a.lo+i.c.i >= a.hi {
+						return nil, &c20Panic{fmt.Sprintf("index %d out of range of a %d-byte window of the digest in %s", i.c.i, a.hi-a.lo, who)}
+					}
+					env[t] = c20LVal{k: 'P', cell: &c20LCell{v: c20LVal{k: 'W', lanes: []c20LLane{{sym: true, side: a.side, idx: a.lo + i.c.i}}}}}
+				default:
+					return nil, fmt.Errorf("%s: element address the analysis does not model (%c[%c])", who, a.k, i.k)
+				}
+			case *ssa.Index:
+				a, err := get(t.X)
+				if err != nil {
+					return nil, err
+				}
+				i, err := get(t.Index)
+				if err != nil {
+					return nil, err
+				}
+				switch {
+				case a.k == 'B' && i.k == 'c' && i.c.k == 'i':
+					if i.c.i < 0 || a.lo+i.c.i >= a.hi {
+						return nil, &c20Panic{fmt.Sprintf("index %d out of range of a %d-byte window of the digest in %s", i.c.i, a.hi-a.lo, who)}
+					}
+					env[t] = c20LVal{k: 'W', lanes: []c20LLane{{sym: true, side: a.side, idx: a.lo + i.c.i}}}
+				case a.k == 'c' && a.c.k == 's' && i.k == 'c' && i.c.k == 'i':
+					if i.c.i < 0 || i.c.i >= int64(len(a.c.s)) {
+						return nil, &c20Panic{"index out of range of a constant string in " + who}
+					}
+					env[t] = c20LInt(int64(a.c.s[i.c.i]))
+				default:
+					return nil, fmt.Errorf("%s: element read the analysis does not model (%c[%c])", who, a.k, i.k)
+				}
+			case *ssa.Slice:
+				a, err := get(t.X)
+				if err != nil {
+					return nil, err
+				}
+				if a.k != 'B' {
+					return nil, fmt.Errorf("%s: slice expression on a value the analysis does not model (%c)", who, a.k)
+				}
+				lo, hi := int64(0), a.hi-a.lo
+				for i, bv := range []ssa.Value{t.Low, t.High} {
+					if bv == nil {
+						continue
+					}
+					v, err := get(bv)
+					if err != nil {
+						return nil, err
+					}
+					if v.k != 'c' || v.c.k != 'i' {
+						return nil, fmt.Errorf("%s: slice bound that is not a constant or a length", who)
+					}
+					if i == 0 {
+						lo = v.c.i
+					} else {
+						hi = v.c.i
+					}
+				}
+				if lo < 0 || lo > hi || hi > a.hi-a.lo {
+					return nil, &c20Panic{fmt.Sprintf("slice bounds [%d:%d] out of range of a %d-byte window of the digest in %s", lo, hi, a.hi-a.lo, who)}
+				}
+				a.lo, a.hi = a.lo+lo, a.lo+hi
+				env[t] = a
+			case *ssa.Call:
+				rs, err := x.doCall(t, get, who, depth)
+				if err != nil {
+					return nil, err
+				}
+				if len(rs) == 1 {
+					env[t] = rs[0]
+				} else {
+					tuples[t] = rs
+				}
+			case *ssa.Extract:
+				rs, ok := tuples[t.Tuple]
+				if !ok || t.Index >= len(rs) {
+					return nil, fmt.Errorf("%s: extract of an uninterpreted tuple", who)
+				}
+				env[t] = rs[t.Index]
+			case *ssa.If:
+				c, err := get(t.Cond)
+				if err != nil {
+					return nil, err
+				}
+				if c.k != 'c' || c.c.k != 'b' {
+					return nil, fmt.Errorf("%s: branch on a value the analysis does not model", who)
+				}
+				if c.c.b {
+					next = b.Succs[0]
+				} else {
+					next = b.Succs[1]
+				}
+			case *ssa.Jump:
+				next = b.Succs[0]
+			case *ssa.Return:
+				var out []c20LVal
+				for _, rv := range t.Results {
+					v, err := get(rv)
+					if err != nil {
+						return nil, err
+					}
+					out = append(out, v)
+				}
+				return out, nil
+			case *ssa.Panic:
+				return nil, &c20Panic{"explicit panic in " + who}
+			default:
+				return nil, fmt.Errorf("%s contains %T, which is outside the interpretable fragment of the ordering analysis", who, in)
+			}
+		}
+		if next == nil {
+			return nil, fmt.Errorf("block without terminator")
+		}
+		prev, b = b, next
+	}
+}
+
+func (x *c20LExec) doCall(t *ssa.Call, get func(ssa.Value) (c20LVal, error), who string, depth int) ([]c20LVal, error) {
+	var as []c20LVal
+	if t.Call.IsInvoke() {
+		rv, err := get(t.Call.Value)
+		if err != nil {
+			return nil, err
+		}
+		as = append(as, rv)
+	}
+	for _, av := range t.Call.Args {
+		a, err := get(av)
+		if err != nil {
+			return nil, err
+		}
+		as = append(as, a)
+	}
+	if t.Call.IsInvoke() {
+		if as[0].k != 'D' {
+			return nil, fmt.Errorf("%s: interface call %s on something other than an operand's digest", who, t.Call.Method.Name())
+		}
+		switch t.Call.Method.Name() {
+		case "bytes":
+			return []c20LVal{{k: 'B', side: as[0].side, lo: 0, hi: x.N}}, nil
+		case "digestName":
+			return []c20LVal{{k: 'N', side: as[0].side}}, nil
+		}
+		return nil, fmt.Errorf("%s: digest method %s is not modelled", who, t.Call.Method.Name())
+	}
+	if bi, ok := t.Call.Value.(*ssa.Builtin); ok {
+		switch bi.Name() {
+		case "len":
+			if len(as) == 1 {
+				switch {
+				case as[0].k == 'B':
+					return []c20LVal{c20LInt(as[0].hi - as[0].lo)}, nil
+				case as[0].k == 'c' && as[0].c.k == 's':
+					return []c20LVal{c20LInt(int64(len(as[0].c.s)))}, nil
+				}
+			}
+		case "min", "max":
+			ok := len(as) > 0
+			for _, a := range as {
+				ok = ok && a.k == 'c' && a.c.k == 'i'
+			}
+			if ok {
+				r := as[0].c.i
+				for _, a := range as[1:] {
+					if (bi.Name() == "min") == (a.c.i < r) {
+						r = a.c.i
+					}
+				}
+				return []c20LVal{c20LInt(r)}, nil
+			}
+		}
+		return nil, fmt.Errorf("%s: builtin %s on values the analysis does not model", who, bi.Name())
+	}
+	cal := t.Call.StaticCallee()
+	if cal == nil {
+		return nil, fmt.Errorf("%s: dynamic call", who)
+	}
+	name := c20Origin(cal).String()
+	if how, ok := c20LStdCmp[name]; ok && how != "" && len(as) == 2 {
+		o, err := x.threeWay(as[0], as[1], t.Call.Args[0].Type(), how != "eq")
+		if err != nil {
+			return nil, fmt.Errorf("%s: %s: %v", who, name, err)
+		}
+		switch how {
+		case "cmp":
+			return []c20LVal{c20LInt(int64(o))}, nil
+		case "eq":
+			return []c20LVal{c20LBool(o == 0)}, nil
+		default:
+			return []c20LVal{c20LBool(o < 0)}, nil
+		}
+	}
+	if w, ok := c20LStdWord[name]; ok && len(as) == 2 {
+		n := int64(w)
+		if n < 0 {
+			n = -n
+		}
+		a := as[1]
+		if a.k != 'B' || a.str {
+			return nil, fmt.Errorf("%s: %s on something other than digest bytes", who, name)
+		}
+		if a.hi-a.lo < n {
+			return nil, &c20Panic{fmt.Sprintf("%s reads %d bytes of a %d-byte window in %s", name, n, a.hi-a.lo, who)}
+		}
+		lanes := make([]c20LLane, n)
+		for i := int64(0); i < n; i++ {
+			src := a.lo + i
+			if w < 0 {
+				src = a.lo + n - 1 - i
+			}
+			lanes[i] = c20LLane{sym: true, side: a.side, idx: src}
+		}
+		return []c20LVal{{k: 'W', lanes: lanes}}, nil
+	}
+	if cal == x.strFn && len(as) == 1 && as[0].k == 'S' && as[0].typ == x.refT {
+		// String() is the definition of the text form; not interpreted
+		return []c20LVal{{k: 'T', side: as[0].side, str: true}}, nil
+	}
+	if !x.m.inPkg(cal) || cal.Blocks == nil {
+		return nil, fmt.Errorf("%s calls %s, which the ordering analysis does not model", who, name)
+	}
+	return x.call(cal, as, depth+1)
+}
+
+// c20LPaths explores fn for digest length N.
+func (m *c20Model) lessPaths(fn *ssa.Function, args func() []c20LVal, N int64) ([]c20LRun, error) {
+	work := [][]int{nil}
+	var runs []c20LRun
+	refT := m.p.NamedType(c20Pkg, "Ref")
+	digT := m.p.NamedType(c20Pkg, "digestType")
+	strFn := m.p.Func(c20Pkg, "Ref", "String")
+	for len(work) > 0 {
+		pfx := work[len(work)-1]
+		work = work[:len(work)-1]
+		if len(runs) > 5000 {
+			return nil, fmt.Errorf("more than 5000 paths")
+		}
+		x := &c20LExec{m: m, N: N, refT: refT, digestT: digT, strFn: strFn, prefix: pfx, memo: map[string]int{}, work: &work}
+		rs, err := x.call(fn, args(), 0)
+		run := c20LRun{facts: x.facts}
+		if err != nil {
+			p, isP := err.(*c20Panic)
+			if !isP {
+				return nil, err
+			}
+			run.panics = p.why
+		} else {
+			if len(rs) != 1 || rs[0].k != 'c' || rs[0].c.k != 'b' {
+				return nil, fmt.Errorf("the result is not a boolean the analysis can follow")
+			}
+			run.res = rs[0].c.b
+		}
+		runs = append(runs, run)
+	}
+	return runs, nil
+}
+
+// c20LJudge decides one path. kind: '-' not judged (an operand is invalid, or
+// the path is infeasible), 'k' correct, 'N' wrong in the hash-name clause,
+// 'V' wrong in the same-hash clause, 'U' undecided.
+func c20LJudge(run c20LRun, N int64, fam string) (kind byte, msg string, byBytes bool) {
+	var name, text *c20LFact
+	var seqs []c20LFact
+	for i := range run.facts {
+		f := &run.facts[i]
+		switch f.key.kind {
+		case 'v':
+			if f.out == 0 {
+				return '-', "", false
+			}
+		case 'n':
+			name = f
+		case 't':
+			text = f
+		case 's':
+			seqs = append(seqs, *f)
+		}
+	}
+	path := c20LPathDesc(run.facts)
+	if run.panics != "" {
+		return 'V', fmt.Sprintf("panics for two valid %s refs on the path ‹%s›: %s", fam, path, run.panics), false
+	}
+	says := func(b bool) string {
+		if b {
+			return "reports the first operand as less"
+		}
+		return "reports the first operand as not less"
+	}
+	if text != nil {
+		// the whole text forms were compared: that is the promised order itself
+		if run.res == (text.out < 0) {
+			return 'k', "", false
+		}
+		return 'V', fmt.Sprintf("path ‹%s› %s", path, says(run.res)), false
+	}
+	if name == nil {
+		return 'N', fmt.Sprintf("the path ‹%s› returns without the hash names of the two operands having been compared: refs of different hash functions are not ordered by hash name there", path), false
+	}
+	if name.out != 0 {
+		if run.res == (name.out < 0) {
+			return 'k', "", false
+		}
+		return 'N', fmt.Sprintf("path ‹%s› %s: refs of different hash functions are ordered against the order of their names (the text form starts with the name)", path, says(run.res)), false
+	}
+	// same hash: per-byte relations
+	for _, f := range seqs {
+		for _, p := range f.key.pairs {
+			if p[0] != p[1] {
+				return 'V', fmt.Sprintf("path ‹%s›: digest byte %d of the first operand is compared with byte %d of the second (different windows for the two operands)", path, p[0], p[1]), true
+			}
+		}
+	}
+	const free = int8(9)
+	rel := make([]int8, N)
+	for i := range rel {
+		rel[i] = free
+	}
+	var decided []c20LFact
+	for _, f := range seqs {
+		if f.out != 0 {
+			decided = append(decided, f)
+			continue
+		}
+		for _, p := range f.key.pairs {
+			rel[p[0]] = 0
+		}
+	}
+	leaves, budget := 0, 200000
+	var viol string
+	var rec func(i int, rel []int8)
+	rec = func(i int, rel []int8) {
+		if viol != "" || budget <= 0 {
+			return
+		}
+		if i == len(decided) {
+			budget--
+			leaves++
+			lex := 0
+			for p := int64(0); p < N; p++ {
+				if rel[p] == free {
+					eg := ""
+					for q := int64(0); q < N; q++ {
+						if rel[q] == -1 || rel[q] == 1 {
+							eg = fmt.Sprintf(" (the comparisons made on this path are satisfied e.g. by a first operand that is %s at byte %d, whatever byte %d is)", c20LOutName(c20LKey{kind: 's'}, int(rel[q])), q, p)
+							break
+						}
+					}
+					agree := "for two " + fam + " refs"
+					if p > 0 {
+						agree = fmt.Sprintf("for two %s refs that agree in bytes [0,%d)", fam, p)
+					}
+					viol = fmt.Sprintf("digest byte %d takes no part in the decision on the path ‹%s›%s: %s the function %s whether byte %d of the first is smaller or larger than that of the second, so its order disagrees with the byte order of the text forms (hex digits %d–%d)", p, path, eg, agree, says(run.res), p, 2*p, 2*p+1)
+					return
+				}
+				if rel[p] != 0 {
+					lex = int(rel[p])
+					break
+				}
+			}
+			if run.res != (lex < 0) {
+				switch {
+				case lex == 0:
+					viol = fmt.Sprintf("path ‹%s› %s although all %d digest bytes are equal (Less must be irreflexive)", path, says(run.res), N)
+				default:
+					viol = fmt.Sprintf("path ‹%s› %s although the first differing digest byte says %s", path, says(run.res), c20LOutName(c20LKey{kind: 's'}, lex))
+				}
+			}
+			return
+		}
+		f := decided[i]
+		try := func(d int) {
+			// positions before d equal, position d decides (d == len: the length tail decides)
+			nr := append([]int8{}, rel...)
+			for j := 0; j < d && j < len(f.key.pairs); j++ {
+				p := f.key.pairs[j][0]
+				if nr[p] != free && nr[p] != 0 {
+					return
+				}
+				nr[p] = 0
+			}
+			if d < len(f.key.pairs) {
+				p := f.key.pairs[d][0]
+				if nr[p] != free && nr[p] != int8(f.out) {
+					return
+				}
+				nr[p] = int8(f.out)
+			}
+			rec(i+1, nr)
+		}
+		for d := range f.key.pairs {
+			try(d)
+		}
+		if f.key.tail == f.out {
+			try(len(f.key.pairs))
+		}
+	}
+	rec(0, rel)
+	switch {
+	case viol != "":
+		return 'V', viol, true
+	case budget <= 0:
+		return 'U', fmt.Sprintf("path ‹%s›: too many ways to satisfy the comparisons", path), true
+	case leaves == 0:
+		return '-', "", true
+	}
+	return 'k', "", true
+}
+
+// lessComparators: Ref.Less plus every method of pkg/blob named Less that
+// compares two ref-holding structs or two elements of a slice of them.
+func (m *c20Model) lessComparators() (out []*ssa.Function, shape map[*ssa.Function]byte) {
+	x := &c20LExec{refT: m.p.NamedType(c20Pkg, "Ref")}
+	shape = map[*ssa.Function]byte{}
+	for _, fn := range m.fns {
+		sig := fn.Signature
+		if fn.Name() != "Less" || sig.Recv() == nil || fn.Blocks == nil || fn.Synthetic != "" || fn.Parent() != nil {
+			continue
+		}
+		if sig.Results().Len() != 1 {
+			continue
+		}
+		if bt, ok := sig.Results().At(0).Type().Underlying().(*types.Basic); !ok || bt.Kind() != types.Bool {
+			continue
+		}
+		rt := sig.Recv().Type()
+		deref := func(t types.Type) types.Type {
+			if p, ok := t.Underlying().(*types.Pointer); ok {
+				return p.Elem()
+			}
+			return t
+		}
+		switch {
+		case sig.Params().Len() == 1 && x.holder(deref(rt)) != nil && deref(sig.Params().At(0).Type()) == deref(rt):
+			shape[fn] = 'v'
+			out = append(out, fn)
+		case sig.Params().Len() == 2:
+			sl, ok := rt.Underlying().(*types.Slice)
+			isInt := func(t types.Type) bool {
+				b, ok := t.Underlying().(*types.Basic)
+				return ok && b.Kind() == types.Int
+			}
+			if ok && x.holder(sl.Elem()) != nil && isInt(sig.Params().At(0).Type()) && isInt(sig.Params().At(1).Type()) {
+				shape[fn] = 'i'
+				out = append(out, fn)
+			}
+		}
+	}
+	sort.Slice(out, func(i, j int) bool { return FuncKey(out[i]) < FuncKey(out[j]) })
+	return out, shape
+}
+
+func c20RuleLess(m *c20Model) {
+	p, r := m.p, m.r
+	const rule = "B-less"
+	r.Floor(rule, 13)
+	anchor := p.Func(c20Pkg, "Ref", "Less")
+	cmps, shape := m.lessComparators()
+	found := false
+	for _, f := range cmps {
+		found = found || f == anchor
+	}
+	if !found {
+		brokenf("anchor unresolved: %s.(Ref).Less is not recognised as a comparator of refs (signature changed?)", c20Pkg)
+	}
+	hx := &c20LExec{refT: p.NamedType(c20Pkg, "Ref")}
+	var fams []*c20Fam
+	for _, f := range m.fams {
+		if f.meta != nil && m.byMeta[f.meta] == f {
+			fams = append(fams, f)
+		}
+	}
+	// the anchor first: comparators that merely delegate to it refer to its verdict
+	sort.SliceStable(cmps, func(i, j int) bool { return cmps[i] == anchor && cmps[j] != anchor })
+	runSig := func(runs []c20LRun) string {
+		var sb strings.Builder
+		for _, run := range runs {
+			for _, f := range run.facts {
+				fmt.Fprintf(&sb, "%s=%d;", f.key.id(), f.out)
+			}
+			fmt.Fprintf(&sb, "→%v%s|", run.res, run.panics)
+		}
+		return sb.String()
+	}
+	anchorSig := map[string]string{}
+	anchorBad := map[string]bool{}
+	anyBytes := false
+	for _, fn := range cmps {
+		site := p.Pos(fn.Pos())
+		mkArgs := func() []c20LVal {
+			var as []c20LVal
+			operand := func(t types.Type, side int8) c20LVal {
+				if pt, ok := t.Underlying().(*types.Pointer); ok {
+					return c20LVal{k: 'P', cell: &c20LCell{v: c20LVal{k: 'S', side: side, typ: hx.holder(pt.Elem())}}}
+				}
+				return c20LVal{k: 'S', side: side, typ: hx.holder(t)}
+			}
+			if shape[fn] == 'v' {
+				as = append(as, operand(fn.Params[0].Type(), 0), operand(fn.Params[1].Type(), 1))
+			} else {
+				as = append(as, c20LVal{k: 'E'}, c20LVal{k: 'I', side: 0}, c20LVal{k: 'I', side: 1})
+			}
+			return as
+		}
+		nameViol, nameUnd := "", ""
+		namePaths := 0
+		if len(fams) == 0 {
+			r.Undecided(rule, FuncKey(fn)+"#bytes", site, "no family of metaFromString could be read (see B-family); the digest lengths to analyse are unknown")
+		}
+		for _, f := range fams {
+			key := FuncKey(fn) + "#bytes[" + f.name + "]"
+			if !f.sizeOK || f.T == nil {
+				r.Undecided(rule, key, site, "the digest length of family "+f.name+" is not known (see B-family)")
+				continue
+			}
+			runs, err := m.lessPaths(fn, mkArgs, f.size)
+			if err != nil {
+				r.Undecided(rule, key, site, fmt.Sprintf("the ordering decision cannot be followed for %d-byte digests: %v", f.size, err))
+				if nameUnd == "" {
+					nameUnd = err.Error()
+				}
+				continue
+			}
+			var viol, und []string
+			judged, equalPath := 0, ""
+			for _, run := range runs {
+				kind, msg, byBytes := c20LJudge(run, f.size, f.name)
+				switch kind {
+				case '-':
+					continue
+				case 'N':
+					if nameViol == "" {
+						nameViol = msg
+					}
+				case 'V':
+					viol = append(viol, msg)
+				case 'U':
+					und = append(und, msg)
+				}
+				namePaths++
+				if kind == 'k' && byBytes {
+					anyBytes = true
+				}
+				judged++
+				allEq := run.panics == ""
+				for _, ft := range run.facts {
+					if ft.key.kind != 'v' && ft.out != 0 {
+						allEq = false
+					}
+				}
+				if allEq && kind == 'k' {
+					equalPath = c20LPathDesc(run.facts)
+				}
+			}
+			sig := runSig(runs)
+			if fn == anchor {
+				anchorSig[f.name], anchorBad[f.name] = sig, len(viol) > 0
+			} else if len(viol) > 0 && anchorBad[f.name] && sig == anchorSig[f.name] {
+				r.Violation(rule, key, site, fmt.Sprintf("delegates to %s and decides exactly as it does, which is wrong for %s refs: see %s#bytes[%s]", FuncKey(anchor), f.name, FuncKey(anchor), f.name))
+				continue
+			}
+			switch {
+			case len(viol) > 0:
+				more := ""
+				if len(viol) > 1 {
+					more = fmt.Sprintf(" (and %d more paths)", len(viol)-1)
+				}
+				r.Violation(rule, key, site, viol[0]+more)
+			case len(und) > 0:
+				r.Undecided(rule, key, site, und[0])
+			case judged == 0:
+				r.Undecided(rule, key, site, "no path for two valid refs was found")
+			default:
+				r.OK(rule, key, site, fmt.Sprintf("%d paths for two valid %s refs (digest length %d, T.bytes() = the whole array by B-family): on every path of equal hash names the outcomes of the comparisons determine the lexicographic order of the %d digest bytes and the result is true exactly when the first is smaller; two equal refs take ‹%s› and get false", judged, f.name, f.size, f.size, equalPath))
+			}
+		}
+		key := FuncKey(fn) + "#names"
+		switch {
+		case nameViol != "":
+			r.Violation(rule, key, site, nameViol)
+		case nameUnd != "":
+			r.Undecided(rule, key, site, "the ordering decision cannot be followed: "+nameUnd)
+		case namePaths == 0:
+			r.Undecided(rule, key, site, "no path for two valid refs was found")
+		default:
+			r.OK(rule, key, site, "every path for two valid refs compares the digestName() strings of both operands (or their whole text forms) before anything else decides; with different names the result is name(first) < name(second), and digest bytes are consulted only under equal names")
+		}
+	}
+	r.Analysed("ref_comparators", len(cmps))
+
+	// different names: order of the names = order of the text forms (name + separator + digits)
+	{
+		key := c20Pkg + ".metaFromString#name-order"
+		bad, n := "", 0
+		for _, a := range m.fams {
+			for _, b := range m.fams {
+				if a.name >= b.name || m.sep == "" {
+					continue
+				}
+				n++
+				ta, tb := a.name+m.sep, b.name+m.sep
+				if strings.HasPrefix(ta, tb) || strings.HasPrefix(tb, ta) || !(ta < tb) {
+					bad = fmt.Sprintf("%q < %q as hash names, but the text forms %s… and %s… compare the other way round (or only by their digits) because of the separator %q", a.name, b.name, ta, tb, m.sep)
+				}
+			}
+		}
+		switch {
+		case m.sep == "":
+			r.Undecided(rule, key, "?", "separator undetermined (see B-sep)")
+		case bad == "":
+			r.OKTable(rule, key, "?", fmt.Sprintf("for all %d pairs of different family names the order of the names is the order of name+%q, the beginning of the text forms", n, m.sep))
+		default:
+			r.Violation(rule, key, "?", bad+": the comparators order refs of different hash functions by name, enumerations promise the order of the text forms")
+		}
+	}
+
+	// the digit alphabet must be increasing for byte order = text order
+	as := p.Func(c20Pkg, "Ref", "appendString")
+	key := FuncKey(as) + "#digit-order"
+	switch {
+	case !anyBytes:
+		r.OKTable(rule, key, p.Pos(as.Pos()), "no comparator decides by digest bytes (text forms are compared directly); the order of the digit characters does not matter")
+	case !m.hexEOK:
+		r.Undecided(rule, key, p.Pos(as.Pos()), "the comparators order refs by digest bytes, which agrees with the order of the text forms only if the digit table of appendString is increasing; the table could not be extracted (see B-hex)")
+	default:
+		bad := ""
+		for n := 1; n < 16; n++ {
+			if m.hexE[n-1] >= m.hexE[n] {
+				bad = fmt.Sprintf("nibble %d prints as %q but nibble %d as %q", n-1, m.hexE[n-1], n, m.hexE[n])
+				break
+			}
+		}
+		r.Check(bad == "", rule, key, p.Pos(as.Pos()),
+			fmt.Sprintf("the digit table %q of the text form is strictly increasing in the nibble value, so byte order of digests carries over to the hex digits", string(m.hexE[:])),
+			fmt.Sprintf("the digit table %q of the text form is not increasing (%s): Less orders refs by digest bytes, enumerations promise the order of the text forms — the two disagree", string(m.hexE[:]), bad))
+	}
 }
